@@ -587,6 +587,19 @@ func (st *ex4State) checkRequestPhase(v *vio, o *ex4Op, offer *dhcpv4.DHCPv4, re
 	}
 	sid := offer.ServerIdentifier()
 	sidRaw := offer.Options.Get(dhcpv4.OptionServerIdentifier)
+	wantXid := binary.BigEndian.Uint32(offer.TransactionID[:])
+	wantAddr := offer.YourIPAddr.To4()
+	// Prefer the offer as it was on the wire, read with the independent BOOTP reader: what
+	// the library decoded cannot reveal a decoding mistake of the library itself.
+	if src := st.findSource(offer, 0, 1<<30); src != nil {
+		if raw, ok := parseBootp(src.bytes); ok && raw.op == 2 {
+			wantXid = raw.xid
+			wantAddr = net.IP(raw.yiaddr[:])
+			if _, has := raw.opts[54]; has || sidRaw == nil {
+				sidRaw = raw.opts[54]
+			}
+		}
+	}
 	for i, tx := range reqTxs {
 		if !tx.ok {
 			v.add("X-req-malformed", "%s: REQUEST transmission %d is not a well-formed BOOTP/DHCP packet", name, i+1)
@@ -596,11 +609,11 @@ func (st *ex4State) checkRequestPhase(v *vio, o *ex4Op, offer *dhcpv4.DHCPv4, re
 		if p.op != 1 || !bytes.Equal(p.chaddr, clientHW) {
 			v.add("X-req-hw", "%s: REQUEST %d has op=%d chaddr=%x, want BOOTREQUEST from %x", name, i+1, p.op, p.chaddr, []byte(clientHW))
 		}
-		if p.xid != binary.BigEndian.Uint32(offer.TransactionID[:]) {
-			v.add("X-req-xid", "%s: REQUEST %d has xid %08x, want the offer's %s", name, i+1, p.xid, offer.TransactionID)
+		if p.xid != wantXid {
+			v.add("X-req-xid", "%s: REQUEST %d has xid %08x, want the offer's %08x", name, i+1, p.xid, wantXid)
 		}
-		if o50 := p.opts[50]; len(o50) != 4 || !offer.YourIPAddr.Equal(net.IP(o50)) {
-			v.add("X-req-addr", "%s: REQUEST %d requested-address option is %v, want the offered address %v", name, i+1, net.IP(o50), offer.YourIPAddr)
+		if o50 := p.opts[50]; len(o50) != 4 || !wantAddr.Equal(net.IP(o50)) {
+			v.add("X-req-addr", "%s: REQUEST %d requested-address option is %v, want the offered address %v", name, i+1, net.IP(o50), wantAddr)
 		}
 		if o54 := p.opts[54]; !bytes.Equal(o54, sidRaw) {
 			v.add("X-req-server", "%s: REQUEST %d server-identifier option is %v, want the offer's %v", name, i+1, o54, sidRaw)
